@@ -6,6 +6,10 @@ import Dcg.Proofs.TemplateCheckBlockB
 import Dcg.Proofs.TemplateCheckBlockC
 import Dcg.Proofs.TemplateFixture
 import Dcg.Gen.CodeSites
+import Dcg.Gen.LoopSites
+import Dcg.Proofs.Loops
+import Dcg.Proofs.TemplateInv
+import Dcg.Proofs.Placeholder
 /-
 C01 — generation terminates and every emitted module is valid Python.
 
@@ -68,6 +72,68 @@ example : ∃ i, i ≤ 3 ∧ (fun n => min n 2) (i + 1) = (fun n => min n 2) i :
   growing_bounded_stabilises 3 (fun n => min n 2)
     (by intro i; show min i 2 ≤ min (i + 1) 2; omega) (by intro i; show min i 2 ≤ 3; omega)
 
+/-! ### The fix-point loops as they are in the code
+
+`growing_bounded_stabilises` is the abstract argument; the theorems below tie it to the sources.
+`Gen/LoopSites` lists, from the AST of `parser/jsonschema.py` and `parser/openapi.py` as they are on
+this run, every `while` loop and every parameterless self-recursion with the exits it has. -/
+
+/-- **Every fix-point loop of the parsers has an exit that does not depend on the growth of
+`results`.** Each loop is a self-recursion (bounded by the interpreter's recursion limit:
+`recursion_on_count_ends`) or has a reviewed exit on a quantity that the document bounds
+(`setUnchanged`: the reserved `$ref` set is what it was after the previous pass — the hypothesis
+`bound` of `growing_bounded_stabilises` holds for it because `reserved_refs_only_grow`; or an
+explicit iteration limit).  A loop whose only exit is "this pass appended no model"
+(`while model_count != len(self.results)`) is not accepted: `results` is not bounded by the document
+(`count_exit_alone_is_no_bound`).  Any other shape the translator meets is `other:…` and not accepted
+either.  There are such loops (the list is not empty). -/
+theorem fixpoint_loops_have_independent_exit :
+    Dcg.Gen.LoopSites.loopSites.all Dcg.Model.Loops.independentExit = true ∧
+    Dcg.Gen.LoopSites.loopSites ≠ [] := by decide
+
+/-- `self.reserved_refs` is created once and only ever added to (no `remove`, `discard`, `clear`,
+`pop`, re-assignment or `del` anywhere in the parsers): the reserved set of a file only grows —
+`mono` of `growing_bounded_stabilises`, as an obligation on the sources instead of an assumption. -/
+theorem reserved_refs_only_grow :
+    Dcg.Gen.LoopSites.reservedRefsMutations.all Dcg.Model.Loops.growsOnly = true ∧
+    Dcg.Gen.LoopSites.reservedRefsMutations ≠ [] := by decide
+
+/-- **A repetition written as self-recursion ends** — for every pass function and every count: after
+at most `depth` passes (the interpreter's recursion limit) the run has ended, either with
+RecursionError (`none`) or in the state after `k + 1 ≤ depth` passes, the last of which did not
+change the count. -/
+theorem recursion_on_count_ends {σ : Type} (pass : σ → σ) (count : σ → Nat) (depth : Nat) (s : σ) :
+    Dcg.Model.Loops.resolveRec pass count depth s = none ∨
+      ∃ k, k < depth ∧
+        Dcg.Model.Loops.resolveRec pass count depth s = some (Dcg.Model.Loops.iter pass (k + 1) s) ∧
+        count (Dcg.Model.Loops.iter pass (k + 1) s) = count (Dcg.Model.Loops.iter pass k s) :=
+  Dcg.Proofs.Loops.resolveRec_ends pass count depth s
+
+/-- **"This pass appended nothing" is not a bound.** With a pass that appends a model every time (a
+reserved pointer that is never marked as loaded, e.g. one with an empty segment) the recursion ends
+with RecursionError for every limit, and the same repetition written as `while the count changed` is
+still running after any number of passes.  This is why `independentExit` does not accept
+`countUnchanged`. -/
+theorem count_exit_alone_is_no_bound :
+    (∀ depth s, Dcg.Model.Loops.resolveRec (fun n : Nat => n + 1) id depth s = none) ∧
+    (∀ fuel s, Dcg.Model.Loops.resolveWhile (fun n : Nat => n + 1) id fuel s = none) :=
+  ⟨Dcg.Proofs.Loops.resolveRec_growing_is_error, Dcg.Proofs.Loops.count_exit_alone_can_diverge⟩
+
+/-- …whereas under the hypotheses of `growing_bounded_stabilises` (count never decreases and is
+bounded by `U`) the `while` form ends within `U + 1` passes — the hypothesis, not the loop, is what
+the code fails to provide. -/
+theorem while_on_bounded_count_ends {σ : Type} (pass : σ → σ) (count : σ → Nat) (U : Nat)
+    (mono : ∀ s, count s ≤ count (pass s)) (bound : ∀ s, count s ≤ U) (s : σ) :
+    (Dcg.Model.Loops.resolveWhile pass count (U + 1) s).isSome = true :=
+  Dcg.Proofs.Loops.resolveWhile_bounded_ends pass count U mono bound (U + 1) s (by omega)
+
+/-- non-vacuity: a pass that grows twice and then stays ends after three passes in both forms; the
+shapes as they are accepted / rejected -/
+example : Dcg.Model.Loops.resolveRec (fun n => min (n + 1) 2) id 1000 0 = some 2 := by decide
+example : Dcg.Model.Loops.resolveWhile (fun n => min (n + 1) 2) id 3 0 = some 2 := by decide
+example : Dcg.Model.Loops.independentExit ("f.py", "g", "while", "n != len(self.results)", ["countUnchanged"]) = false := by decide
+example : Dcg.Model.Loops.independentExit ("f.py", "g", "while", "True", ["other:x", "iterationLimit"]) = true := by decide
+
 /-- **Template text is lexically closed around every interpolation site** (proved in
 `Dcg/Props/C10.lean` by the kernel over the site table regenerated from the Jinja sources on this
 run): every site stands in exactly one lexical state that its value class may occupy, schema text
@@ -101,8 +167,11 @@ sources by jinja2's own parser on every run) and are given meaning by the interp
 below quantify over EVERY render context.  `ValuesOK o` says that every value interpolated during
 the rendering `o` — except docstring text, for which nothing is assumed — satisfies the invariant
 of its reviewed site class (`Proofs.TemplateBlock.BlockHyp`: identifiers, type hints, repr values,
-base lists, decorators are one line that neither starts with a blank nor is the keyword `class`,
-header sites contain no `#`; comment text is one line).  `blockOf text` is the final state of the
+base lists, decorators are one line — no `\n` — that neither starts with a blank nor is the keyword
+`class`, header sites contain no `#`; comment text is one line; the two sites inside the
+`indent(4)` filter block of the pydantic config contain no `str.splitlines` boundary at all).
+Whether the contexts the generator really builds satisfy it is observed on every end-to-end run at
+the render boundary (`vlib/props/render_probe.py`, driver `tpl.inv`).  `blockOf text` is the final state of the
 block automaton of `Model/TemplateBlock` on the text. -/
 
 section Templates
@@ -187,6 +256,87 @@ theorem enum_before_fix_rejected :
       Dcg.Proofs.TemplateFixture.enumBeforeFix =
       some [(.name "decorators", false), (.name "description", false), (.name "fields", false)] :=
   ⟨Dcg.Proofs.TemplateFixture.enumBeforeFix_rejected, Dcg.Proofs.TemplateFixture.enumBeforeFix_counterexample⟩
+
+/-- **Names discharge the value hypotheses.** What C07 proves of the resolvers — a member or class
+name is a Python identifier that is not a keyword (`Model/TemplateInv.identValueB`) — is enough for
+the hypotheses that the template theorems of C01 (`BlockHyp`, above) and C10 (`LexHyp`:
+`template_lexically_closed`, `sites_in_allowed_states`) make about the value of a one-line code site:
+such a value is one line, does not start with a blank, is not `class`, contains no `#`, no quote, no
+backslash.  The name sites (`{{ field.name }}`, `{{ class_name }}`, `{{ fields[0].name }}`) are
+checked against `identValueB` on every real render context of every end-to-end run (driver
+`tpl.inv`): a member that reaches rendering without a name is written as `None` and violates it — the
+assumption of this theorem, and with it the link to C07, is then broken for that document. -/
+theorem identifier_values_discharge_hypotheses (e : Expr) (v : List Char) (hd : Bool)
+    (hk : slotKind e = .word hd) (hv : Dcg.Model.TemplateInv.identValueB v = true) :
+    BlockHyp e v ∧ Dcg.Proofs.TemplateLex.LexHyp e v :=
+  Dcg.Proofs.TemplateInv.identValue_hyps e v hd hk hv
+
+/-- non-vacuity: `field.name` is such a site, `user_id` such a value; `None`, `class`, the empty
+string and `a b` are not -/
+example : slotKind (.attr (.name "field") "name") = .word false ∧
+    Dcg.Model.TemplateInv.isNameSite (.attr (.name "field") "name") = true ∧
+    Dcg.Model.TemplateInv.identValueB "user_id".toList = true := by decide +kernel
+example : Dcg.Model.TemplateInv.identValueB "None".toList = false ∧
+    Dcg.Model.TemplateInv.identValueB "class".toList = false ∧
+    Dcg.Model.TemplateInv.identValueB [] = false ∧
+    Dcg.Model.TemplateInv.identValueB "a b".toList = false := by decide +kernel
+
+/-! ### Where a name-less member can come from: the placeholders of `required`
+
+`Model/Placeholder` models `Parser.__override_required_field` (compared with the real pass on random
+class graphs on every run): the name-less placeholder that a `required` entry naming no declared
+member leaves behind is replaced by a copy of the base-class member or dropped. -/
+
+section Placeholder
+open Dcg.Model.Placeholder
+
+/-- **After the pass every member of a class model is an original member that was not a pending
+placeholder, or a copy of a base-class member.** -/
+theorem override_members (find : List Char → Option Fld) (fs : List Fld) (g : Fld)
+    (h : g ∈ overrideFields find fs) :
+    (g ∈ fs ∧ pending g = false) ∨
+    (∃ f ∈ fs, pending f = true ∧ ∃ o, find (f.orig.getD []) = some o ∧ g = { o with required := true }) :=
+  Dcg.Proofs.Placeholder.overrideFields_mem h
+
+/-- **No name-less member is left** — in every class model whose name-less members are all pending
+placeholders (a wire name that is not empty, an empty type) and whose base-class members all have
+names: every member after the pass has a name, i.e. `{{ field.name }}` receives a name for every
+member (`identifier_values_discharge_hypotheses` then needs only C07). -/
+theorem override_leaves_only_named (find : List Char → Option Fld) (fs : List Fld)
+    (hfs : ∀ f ∈ fs, f.name = none → pending f = true)
+    (hfind : ∀ n o, find n = some o → o.name ≠ none) :
+    ∀ g ∈ overrideFields find fs, g.name ≠ none := by
+  intro g hg
+  rcases override_members find fs g hg with ⟨hm, hp⟩ | ⟨f, _, _, o, ho, hgo⟩
+  · intro hn
+    rw [hfs g hm hn] at hp
+    cases hp
+  · rw [hgo]
+    exact hfind _ o ho
+
+/-- The hypothesis on the members cannot be dropped, and the code does not provide it: the
+placeholder of `required: [""]` has a wire name that is EMPTY, which the test
+`not model_field.original_name` treats like no wire name — it is not pending, it is kept, and it has
+no name (recorded finding C01-required-empty-name; `D = allOf [$ref B], required: [""]` renders
+`None: None`). -/
+theorem empty_required_name_survives :
+    overrideFields (fun _ => none) [⟨none, some [], false, true⟩] = [⟨none, some [], false, true⟩] ∧
+    pending ⟨none, some [], false, true⟩ = false := by decide
+
+/-- what the breadth-first lookup returns carries the wire name that was asked for -/
+theorem lookup_returns_the_wire_name (n : List Char) (k : Nat) (ms : List Mdl) (o : Fld)
+    (h : findField n k ms = some o) : o.orig = some n :=
+  Dcg.Proofs.Placeholder.findField_orig k ms o h
+
+/-- non-vacuity: a model with a base: `x` is re-declared from the base (marked required), `ghost` is
+dropped, the typed member stays; a model WITHOUT bases loses its placeholder too -/
+example : overrideModel 8 false (.mk [⟨none, some "x".toList, false, true⟩, ⟨none, some "ghost".toList, false, true⟩,
+      ⟨some "y".toList, some "y".toList, true, false⟩]
+      [.mk [⟨some "x".toList, some "x".toList, true, false⟩] []]) =
+    [⟨some "x".toList, some "x".toList, true, true⟩, ⟨some "y".toList, some "y".toList, true, false⟩] := by decide
+example : overrideModel 8 false (.mk [⟨none, some "ghost".toList, false, true⟩] []) = [] := by decide
+
+end Placeholder
 
 /-- non-vacuity of the class theorems: a real rendering of `Enum.jinja2` (no members, a
 description) that satisfies the hypotheses; what the block automaton accepts and rejects -/
